@@ -93,6 +93,7 @@ func inSet(set [][]byte, a []byte) bool {
 
 // env is one stack on a resolution-requiring tap.
 type env struct {
+	naFlags byte // flags byte of injected neighbour advertisements (0 = solicited|override)
 	tap  *netsim.Tap
 	s    *stack.Stack
 	v6   bool
@@ -188,6 +189,9 @@ func (e *env) injectReply(ip, mac []byte) {
 	if e.v6 {
 		body := make([]byte, 4+16+8)
 		body[0] = 0x60 // solicited, override
+		if e.naFlags != 0 {
+			body[0] = e.naFlags
+		}
 		copy(body[4:], ip)
 		body[20], body[21] = 2, 1
 		copy(body[22:], mac)
